@@ -1,10 +1,11 @@
 #!/bin/bash
-# usage: tools/verify_seed.sh <Cxx> [src-dir]
+# usage: tools/verify_seed.sh <seed-id> <Cxx> [src-dir]
 # Confirms a seeded change produced by a sub-agent, in a scratch worktree of /repo (never in /repo):
 #  1. the demonstration passes on the unchanged tree, 2. the patch applies to /repo HEAD,
-#  3. the demonstration fails with the patch, 4. the pinned test suite still passes with the patch.
-# Stores patch.diff, demo_test.py, NOTES.md and verify.log under /verif/seeded/<Cxx>/.
-id=$1; src=${2:-/tmp/seed-$id}
+#  3. the demonstration fails with the patch, 4. the pinned test suite still passes with the patch
+#     (SUITE=0 skips 4; SUITE=<paths> runs only those test paths).
+# Stores patch.diff, demo_test.py, NOTES.md, verify.log and verify.json under /verif/seeded/<seed-id>/.
+id=$1; prop=$2; src=${3:-/tmp/seed-out/$id}
 dst=/verif/seeded/$id; mkdir -p $dst
 cp $src/patch.diff $dst/patch.diff; cp $src/demo_test.py $dst/demo_test.py; [ -f $src/NOTES.md ] && cp $src/NOTES.md $dst/NOTES.md
 wt=/tmp/vs-$id
@@ -13,12 +14,25 @@ git -C /repo worktree add -q $wt HEAD || exit 3
 log=$dst/verify.log; : > $log
 cd $wt; cp $dst/demo_test.py $wt/demo_test.py
 run_demo() { PYTHONPATH=$wt timeout 900 /venv/bin/python -m pytest -q -p no:cacheprovider demo_test.py 2>&1 | tail -3; }
-echo "== demo on unchanged tree (expected: pass)" >> $log; run_demo >> $log
-git -C $wt apply $dst/patch.diff || { echo "PATCH DOES NOT APPLY" >> $log; git -C /repo worktree remove --force $wt; exit 3; }
-echo "== demo with patch (expected: fail)" >> $log; run_demo >> $log
+echo "== demo on unchanged tree (expected: pass)" >> $log; run_demo > /tmp/vs-$id.a; cat /tmp/vs-$id.a >> $log
+clean=$(grep -Ec '^[0-9]+ passed' /tmp/vs-$id.a)
+git -C $wt apply $dst/patch.diff || { echo "PATCH DOES NOT APPLY" >> $log; cd /verif; git -C /repo worktree remove --force $wt; exit 3; }
+echo "== demo with patch (expected: fail)" >> $log; run_demo > /tmp/vs-$id.b; cat /tmp/vs-$id.b >> $log
+broken=$(grep -Ec 'failed|error' /tmp/vs-$id.b)
+suite="skipped"
 if [ "$SUITE" != "0" ]; then
   echo "== pinned suite with patch" >> $log
-  PYTHONPATH=$wt timeout 3000 /venv/bin/python -m pytest -q -p no:cacheprovider --timeout=900 --continue-on-collection-errors -n 6 --ignore=demo_test.py mistral 2>&1 | tail -4 >> $log
+  paths=${SUITE:-mistral}
+  PYTHONPATH=$wt timeout 3400 /venv/bin/python -m pytest -q -p no:cacheprovider --timeout=900 --continue-on-collection-errors -n ${NPROC:-6} --ignore=demo_test.py $paths 2>&1 | tail -6 > /tmp/vs-$id.c
+  cat /tmp/vs-$id.c >> $log
+  suite=$(grep -E 'passed|failed' /tmp/vs-$id.c | tail -1)
 fi
 cd /verif; git -C /repo worktree remove --force $wt
-cat $log
+python3 - "$dst" "$id" "$prop" "$clean" "$broken" "$suite" <<'EOF'
+import json, sys
+dst, sid, prop, clean, broken, suite = sys.argv[1:7]
+json.dump({'seed': sid, 'property': prop, 'demo_passes_on_clean_tree': clean != '0',
+           'demo_fails_with_patch': broken != '0', 'suite_with_patch': suite}, open(dst + '/verify.json', 'w'), indent=1)
+EOF
+rm -f /tmp/vs-$id.a /tmp/vs-$id.b /tmp/vs-$id.c
+cat $log; cat $dst/verify.json
